@@ -15,6 +15,12 @@ pub fn kinds_for(prop: &str) -> Vec<&'static str> {
         "C09" => vec!["model", "clone-count", "lazy", "dup", "double-drop", "handle"],
         "C10" => vec!["capacity", "len>cap", "model", "garbage"],
         "C14" => vec!["iter", "model"],
+        "C05" => vec!["guard", "stale-write", "garbage", "corrupt-drop", "corrupt-clone", "len>cap", "lifecycle", "crash"],
+        "C11" => vec!["model", "garbage", "capacity", "stack-alloc", "clone-count"],
+        "C18" => vec!["alloc-shape", "alloc-layout", "alloc-invalid", "alloc-leak"],
+        "C07" => vec!["forget-prefix", "model", "garbage", "dup", "dead-visible", "double-drop", "corrupt-drop", "iter"],
+        "C13" => vec!["handle", "model", "garbage", "view"],
+        "C17" => vec!["rawparts", "model", "garbage", "leak", "double-drop", "alloc-leak", "alloc-shape", "dup"],
         _ => vec![],
     };
     k.push("harness");
@@ -73,6 +79,48 @@ pub fn run(ctx: &mut Ctx) {
         "C14" => {
             fam::exhaustive(ctx, "iter", &cfgs, l, false, &fam::iter_ops);
             fam::exhaustive(ctx, "range", &cfgs, l, false, &fam::range_ops);
+        }
+        "C05" => {
+            use hvcore::rigapi::MemKind;
+            cfgs.retain(|c| matches!(c.mem, MemKind::Guard | MemKind::Heap));
+            for g in [hvcore::guard::Growth::Exact, hvcore::guard::Growth::Double, hvcore::guard::Growth::Slack3] {
+                hvcore::guard::set_default_growth(g);
+                let sub: Vec<_> = cfgs.iter().filter(|c| g == hvcore::guard::Growth::Exact || (c.mem == MemKind::Guard && c.core)).cloned().collect();
+                let tag = format!("{g:?}");
+                fam::exhaustive(ctx, &format!("elem/{tag}"), &sub, l.min(5), true, &fam::elem_seqs);
+                fam::exhaustive(ctx, &format!("range/{tag}"), &sub, l.min(5) - 1, false, &fam::range_ops);
+                fam::exhaustive(ctx, &format!("clone/{tag}"), &sub, 3, false, &fam::clone_ops);
+                fam::histories(ctx, &format!("mixed-hist/{tag}"), &sub, &hist(thorough, true, true, true, true));
+            }
+            hvcore::guard::set_default_growth(hvcore::guard::Growth::Exact);
+        }
+        "C11" => {
+            use hvcore::rigapi::MemKind;
+            cfgs.retain(|c| matches!(c.mem, MemKind::Stack | MemKind::StackN));
+            fam::exhaustive(ctx, "elem", &cfgs, l, true, &fam::elem_seqs);
+            fam::exhaustive(ctx, "range", &cfgs, l, false, &fam::range_ops);
+            fam::exhaustive(ctx, "clone", &cfgs, l, false, &fam::clone_ops);
+            fam::exhaustive(ctx, "lazy", &cfgs, l.min(5), false, &fam::lazy_ops);
+            fam::histories(ctx, "mixed-hist", &cfgs, &hist(thorough, true, true, false, true));
+        }
+        "C18" => {
+            cfgs.retain(|c| c.mem == hvcore::rigapi::MemKind::Heap && !c.elem.heap);
+            fam::exhaustive(ctx, "elem", &cfgs, l.min(5), true, &fam::elem_seqs);
+            fam::exhaustive(ctx, "range", &cfgs, l.min(5) - 1, false, &fam::range_ops);
+            fam::exhaustive(ctx, "capacity", &cfgs, l, false, &fam::cap_ops);
+            fam::exhaustive(ctx, "clone", &cfgs, 3, false, &fam::clone_ops);
+            fam::histories(ctx, "mixed-hist", &cfgs, &hist(thorough, true, true, true, true));
+        }
+        "C07" => {
+            fam::exhaustive(ctx, "forget", &cfgs, l, false, &fam::forget_ops);
+        }
+        "C13" => {
+            fam::exhaustive(ctx, "handle", &cfgs, l, true, &fam::handle_ops);
+        }
+        "C17" => {
+            cfgs.retain(|c| c.mem == hvcore::rigapi::MemKind::Heap);
+            fam::exhaustive(ctx, "rawparts", &cfgs, l.min(5), false, &fam::rawparts_ops);
+            fam::histories(ctx, "rawparts-hist", &cfgs, &hist(thorough, true, true, true, true));
         }
         other => {
             eprintln!("unknown property {other}");
